@@ -324,4 +324,50 @@ theorem cacheStream_split {pre post : List GeomRec} {r : GeomRec} {c : ConvId} {
   obtain ⟨a, q, ha, hq, rfl⟩ := hashGeometry_cons_eq_some hq'
   exact ⟨p, a, q, t, hp, ha, hq, ht, by simp⟩
 
+/-- Two streams that share the variables `pre` and then continue with `r` / `r'`:
+if the streams are equal, so are the two continuations from that point on. -/
+theorem diverge {pre post post' : List GeomRec} {r r' : GeomRec} {c c' : ConvId}
+    {ver ver' : String} {s : Bytes}
+    (h : cacheStream (pre ++ r :: post) c ver = some s)
+    (h' : cacheStream (pre ++ r' :: post') c' ver' = some s) :
+    ∃ a a' q q' t t', hashVar r = some a ∧ hashVar r' = some a' ∧
+      hashGeometry post = some q ∧ hashGeometry post' = some q' ∧
+      trailer c ver = some t ∧ trailer c' ver' = some t' ∧
+      a ++ (q ++ t) = a' ++ (q' ++ t') := by
+  obtain ⟨p, a, q, t, hp, ha, hq, ht, hs⟩ := cacheStream_split h
+  obtain ⟨p', a', q', t', hp', ha', hq', ht', hs'⟩ := cacheStream_split h'
+  rw [hp] at hp'
+  have : p = p' := Option.some.inj hp'
+  subst this
+  rw [hs] at hs'
+  exact ⟨a, a', q, q', t, t', ha, ha', hq, hq', ht, ht', List.append_cancel_left hs'⟩
+
+theorem set_middle {α} (X D Y : List α) (k : Nat) (b : α) (hk : k < D.length) :
+    (X ++ (D ++ Y)).set (X.length + k) b = X ++ (D.set k b ++ Y) := by
+  rw [List.set_append_right _ _ (by omega)]
+  congr 1
+  rw [Nat.add_sub_cancel_left, List.set_append_left _ _ hk]
+
+theorem hashGeometry_prefix_partial (itemsize : String → Nat) :
+    ∀ (rs rs' : List GeomRec) (g g' x y : Bytes),
+    (∀ r ∈ rs, WellFormed itemsize r) → (∀ r ∈ rs', WellFormed itemsize r) →
+    SameRanks rs rs' → hashGeometry rs = some g → hashGeometry rs' = some g' →
+    g ++ x = g' ++ y → rs = rs' ∧ x = y
+  | [], [], g, g', x, y, _, _, _, h, h', e => by
+    simp [hashGeometry] at h h'; subst h; subst h'; simpa using e
+  | [], _ :: _, _, _, _, _, _, _, hr, _, _, _ => by simp [SameRanks] at hr
+  | _ :: _, [], _, _, _, _, _, _, hr, _, _, _ => by simp [SameRanks] at hr
+  | r :: rs, r' :: rs', g, g', x, y, hwf, hwf', hr, h, h', e => by
+    obtain ⟨a, q, ha, hq, rfl⟩ := hashGeometry_cons_eq_some h
+    obtain ⟨a', q', ha', hq', rfl⟩ := hashGeometry_cons_eq_some h'
+    simp only [SameRanks, List.map_cons, List.cons.injEq] at hr
+    simp only [List.append_assoc] at e
+    have w := hwf r (by simp)
+    have w' := hwf' r' (by simp)
+    obtain ⟨hrr, e⟩ := hashVar_prefix_full ha ha' hr.1
+      (fun _ hd hs => by unfold WellFormed at w w'; rw [w, w', hd, hs]) e
+    obtain ⟨hrs, hxy⟩ := hashGeometry_prefix_partial itemsize rs rs' q q' x y
+      (fun r hr => hwf r (by simp [hr])) (fun r hr => hwf' r (by simp [hr])) hr.2 hq hq' e
+    exact ⟨by rw [hrr, hrs], hxy⟩
+
 end Ems.CacheKey
